@@ -404,7 +404,7 @@ fn check_tool(
         .map_err(|e| e.to_string())?;
     let p = |f: &str| dir.path().join(f).to_string_lossy().to_string();
     // write the inputs with the library
-    let mut in_paths = vec![];
+    let mut in_paths: Vec<String> = vec![];
     for (i, inp) in inputs.iter().enumerate() {
         let chroms: Vec<BwChrom> = {
             let mut v: Vec<&(u8, Vec<V>)> = inp.iter().collect();
@@ -417,6 +417,15 @@ fn check_tool(
                 })
                 .collect()
         };
+        // threads == 255: an input identical to an earlier one is passed as the SAME path again
+        if threads == 255 {
+            if let Some(j) = inputs[..i].iter().position(|x| format!("{:?}", x) == format!("{:?}", inp)) {
+                let same: String = in_paths[j].clone();
+                in_paths.push(same);
+                obs.label("same-path-listed-twice");
+                continue;
+            }
+        }
         let path = p(&format!("in{}.bw", i));
         let f = std::fs::File::create(&path).map_err(|e| e.to_string())?;
         let mut o = Opts::default();
@@ -439,7 +448,7 @@ fn check_tool(
         common.push(format!("--adjust={}", a));
     }
     common.push("-t".into());
-    common.push(format!("{}", threads.max(1)));
+    common.push(format!("{}", if threads == 255 { 2 } else { threads.max(1) }));
     // every documented output name, and the explicit type flag
     let outputs: Vec<(&str, Option<&str>, bool)> = vec![
         ("out.bedGraph", None, false),
@@ -593,7 +602,20 @@ impl Prop for C15 {
         // < 1000 and then merges the partial results): clip, adjust and threshold still apply to the total
         many_inputs(1100, -1000.0, None, Some(1)),
         many_inputs(1100, 0.0, Some(40), None),
-        many_inputs(240, -1000.0, Some(3), Some(-1))]
+        many_inputs(240, -1000.0, Some(3), Some(-1)),
+        // the same file listed twice counts twice (inputs are a list, not a set)
+        Case::Tool {
+            inputs: vec![
+                vec![(0, vec![V { s: 0, e: 10, v: 1.5 }, V { s: 30, e: 35, v: 2.0 }])],
+                vec![(0, vec![V { s: 5, e: 20, v: 4.0 }])],
+                vec![(0, vec![V { s: 0, e: 10, v: 1.5 }, V { s: 30, e: 35, v: 2.0 }])],
+            ],
+            sizes: vec![1000; 4],
+            threshold: 0.0,
+            clip: None,
+            adjust: None,
+            threads: 255,
+        }]
     }
     fn check(case: &Case, obs: &mut Obs) -> Result<(), String> {
         match case {
